@@ -102,6 +102,10 @@ def generate(lean_dir: str):
                ", ".join(f"({P.lean_string(n)}, ({w}, {m}))" for n, w, m in chain) + "]\n\n")
     out.append(f"def DW_DEFAULT : Rat := {dw}\n\n")
     out.append(f"/-- (vy, w1y) -/\ndef DW2_DEFAULT : Rat × Rat := (({dw2[0]} : Int), ({dw2[1]} : Int))\n\n")
+    max_cid = P.literal(P.find_assign(font, "MAX_CID"))
+    if not isinstance(max_cid, int):
+        raise P.Untranslatable("MAX_CID is not an integer literal")
+    out.append(f"/-- largest CID; W / W2 ranges are clamped to 0..MAX_CID -/\ndef MAX_CID : Int := {max_cid}\n\n")
     uses_wmode, ttf_codings = _collection_call(init)
     out.append("/-- `self.cidcoding in (...)`: collections whose Unicode comes from the embedded TrueType cmap -/\n"
                "def TTF_CODINGS : List String := [" + ", ".join(P.lean_string(x) for x in ttf_codings) + "]\n\n")
